@@ -116,10 +116,10 @@ def judge(ctx, t, rng, select, keys_fn, cls, like_fold=True, cap=400, extra_case
 
 
 def _judge(ctx, t, rng, select, keys_fn, cls, like_fold=True, cap=400, extra_case=None,
-           profile=None):
+           profile=None, domain=None):
     ctx.count("evaluations")
     cols = scalar.columns_of(t)
-    rows = R.rows_for(cols, rng, cap)
+    rows = R.rows_for(cols, rng, cap, domain)
     prob, detail, flags, nontrivial = compare(t, rows, select, like_fold)
     ctx.count("rows_compared", len(rows))
     ctx.count("unspec_rows_skipped", detail.get("unspec_rows", 0) if isinstance(detail, dict) else 0)
@@ -134,13 +134,13 @@ def _judge(ctx, t, rng, select, keys_fn, cls, like_fold=True, cap=400, extra_cas
     sigp = prob
 
     def still(t2):
-        rows2 = R.rows_for(scalar.columns_of(t2), rng, cap)
+        rows2 = R.rows_for(scalar.columns_of(t2), rng, cap, domain)
         p2 = compare(t2, rows2, select, like_fold)[0]
         return p2 == sigp
     accept = typed_ok if profile is None else (lambda x: typed_ok(x) and scalar.conforms(x, profile))
     small = shrink(t, still, max_tries=120, accept=accept)
     if small is not t:
-        rows2 = R.rows_for(scalar.columns_of(small), rng, cap)
+        rows2 = R.rows_for(scalar.columns_of(small), rng, cap, domain)
         p2, d2, f2, _ = compare(small, rows2, select, like_fold)
         if p2 == sigp:
             t, rows, prob, detail, flags = small, rows2, p2, d2, f2
@@ -151,6 +151,62 @@ def _judge(ctx, t, rng, select, keys_fn, cls, like_fold=True, cap=400, extra_cas
     ctx.fail(case, prob, expected="exactly the rows for which the filter is true",
              observed=detail, keys=keys, cls=cls, sig=[prob, sorted(keys), cls])
     return False
+
+
+_M_INT = ["1", "-1", "2", "3", "9223372036854775807", "-9223372036854775807"]
+_M_FLOAT = ["0.1", "0.2", "0.3", "0.5", "0.7"]
+
+
+def _gen_machine(rng, typ, depth):
+    if depth <= 0 or rng.random() < 0.2:
+        if typ == "int":
+            if rng.random() < 0.6:
+                return T.ident(rng.choice(["a", "b", "c"]))
+            return T.lit("int", rng.choice(_M_INT))
+        if rng.random() < 0.5:
+            return T.ident("f")
+        return T.lit("float", rng.choice(_M_FLOAT))
+    op = rng.choice(["add", "add", "mul", "sub"])
+    return ("bin", op, _gen_machine(rng, typ, depth - 1), _gen_machine(rng, typ, depth - 1))
+
+
+def _short(v):
+    if isinstance(v, int):
+        return True
+    r = repr(v)
+    return "e" not in r and "n" not in r and len(r.replace("-", "").replace(".", "").lstrip("0")) <= 15
+
+
+def machine_lane(ctx, rng, select, keys_fn, n, extra_case=None, profile=None, floats=True):
+    """Arithmetic at the edges of the machine types (rows.BOUNDARY): the comparison value
+    is one the source grouping really produces on some row, so that equality is sharp and a
+    regrouped / reordered translation shows as a wrong row.  Rows on which the SOURCE
+    grouping leaves Int64 (or mixes a huge integer with a double) are unspecified."""
+    done = 0
+    for _ in range(n * 4):
+        if done >= n or ctx.out_of_time():
+            break
+        typ = "float" if floats and rng.random() < 0.5 else "int"
+        e = _gen_machine(rng, typ, rng.randint(2, 3))
+        cols = scalar.columns_of(e)
+        if not cols:
+            continue
+        rows = R.rows_for(cols, rng, 150, R.BOUNDARY)
+        ev = Evaluator()
+        vals = [ev.ev(e, r) for r in rows]
+        cands = [v for v in vals if v is not UNSPEC and v is not None and _short(v)]
+        if not cands:
+            continue
+        v = rng.choice(cands)
+        lit = T.lit("int", str(v)) if isinstance(v, int) else T.lit("float", repr(v))
+        t = ("cmp", rng.choice(["eq", "eq", "ne", "lt", "le", "gt", "ge"]), e, lit)
+        if profile is not None and not scalar.conforms(t, profile):
+            continue
+        done += 1
+        ctx.count("machine_number_filters")
+        _judge(ctx, t, rng, select, keys_fn, "machine-numbers", True, 150, extra_case, profile,
+               domain=R.BOUNDARY)
+    return done
 
 
 def render_rows(rows):
